@@ -26,6 +26,9 @@ EOF = "eof"
 class _ScanWalker(kwalk.Walker):
     """Walker that walks every small local helper in place (the scanners keep their character tests in `eat_*` helpers)."""
 
+    def _sub_walker(self, body, **kw):
+        return _ScanWalker(self.F, body, **kw)      # helpers of helpers are walked in place too
+
     def _inline_target(self, t, name):
         if name is None or self.depth >= self.MAX_INLINE_DEPTH or name in self.pure:
             return None
